@@ -243,6 +243,72 @@ def _s3(program, res):
             res.fail_at("C18-S3", m, "sort-keys", f"{nm} order_rows sorts by {by}")
 
 
+# default place of NULL in ORDER BY per dialect and direction (SQLite: NULL is the smallest value; PostgreSQL: NULL is the largest)
+SQL_NULL_DEFAULT = {"SQLiteModel": {"ASC": "first", "DESC": "last"}, "PostgreSQLModel": {"ASC": "last", "DESC": "first"}}
+
+
+def null_position_rule(program, res, backends, rule="C18-S5"):
+    """where missing values go when rows are ordered: Pandas sort_values puts them last whatever the direction (na_position='last').
+    The other back ends must say so explicitly, or their default must coincide"""
+    pb = program.method("pandas_base", "PandasModelBase", "_order_rows_step", inherited=False)
+    sv = [c for c in ast.walk(pb.node) if isinstance(c, ast.Call) and isinstance(c.func, ast.Attribute) and c.func.attr == "sort_values"]
+    if not sv:
+        raise AnalysisError("Pandas _order_rows_step: sort_values not found")
+    nap = [k.value.value for c in sv for k in c.keywords if k.arg == "na_position" and isinstance(k.value, ast.Constant)]
+    pandas_pos = nap[0] if nap else "last"
+    res.ok(rule, f"Pandas order_rows puts missing values {pandas_pos} (sort_values na_position)", nontrivial=False)
+    if "polars" in backends:
+        pm = program.method("polars_model", "PolarsModel", "_order_rows_step", inherited=False)
+        res.analysed(pm)
+        sorts = [c for c in ast.walk(pm.node) if isinstance(c, ast.Call) and isinstance(c.func, ast.Attribute) and c.func.attr == "sort"]
+        if not sorts:
+            raise AnalysisError("Polars _order_rows_step: sort not found")
+        for c in sorts:
+            kws = {k.arg: k.value for k in c.keywords}
+            nl = kws.get("nulls_last")
+            want = pandas_pos == "last"
+            if isinstance(nl, ast.Constant) and nl.value is want:
+                res.ok(rule, f"Polars order_rows sorts with nulls_last={want}")
+            else:
+                res.fail_at(rule, pm, "polars-null-position",
+                            f"`{unparse(c)[:70]}` leaves nulls_last at its default (False: missing values first); Pandas puts them {pandas_pos}: "
+                            f"order_rows(['x'], limit=2) over x=[2,None,1,3] keeps different rows", c)
+    for dialect in [b for b in backends if b.endswith("Model")]:
+        sm = program.method("sql_model", "SQLModel", "order_to_near_sql", inherited=False)
+        res.analysed(sm)
+        explicit = any(isinstance(c, ast.Constant) and isinstance(c.value, str) and "NULLS " in c.value.upper() for n_ in _private_closure(sm) for c in ast.walk(n_))
+        if explicit:
+            res.ok(rule, f"{dialect}: ORDER BY terms state the position of NULLs")
+            continue
+        for direction in ("ASC", "DESC"):
+            d_ = SQL_NULL_DEFAULT.get(dialect, {}).get(direction)
+            if d_ == pandas_pos:
+                res.ok(rule, f"{dialect}: default NULL position for {direction} ({d_}) coincides with Pandas")
+            else:
+                res.fail_at(rule, sm, f"sql-null-position:{dialect}:{direction}",
+                            f"{dialect}: ORDER BY … {direction} has no NULLS FIRST/LAST and the dialect's default puts NULL {d_}; Pandas puts missing values "
+                            f"{pandas_pos}: with a limit the kept rows differ (order_rows(['x'], limit=2) over x=[2,None,1,3])")
+
+
+def _private_closure(m, depth=3):
+    nodes = [m.node]
+    if m.cls is None:
+        return nodes
+    frontier = [m.node]
+    for _d in range(depth):
+        nxt = []
+        for fn_ in frontier:
+            for c in ast.walk(fn_):
+                if isinstance(c, ast.Call) and isinstance(c.func, ast.Attribute) and isinstance(c.func.value, ast.Name) and c.func.value.id == "self" \
+                        and c.func.attr.startswith("_"):
+                    h = m.cls.find_method(c.func.attr)
+                    if h is not None and h.node not in nodes:
+                        nodes.append(h.node)
+                        nxt.append(h.node)
+        frontier = nxt
+    return nodes
+
+
 def position_primitives_rule(program, res, rule="C18-S4"):
     """a primitive that numbers rows in their *incoming* order (groupby.cumcount) may realise an operator only if the builder guarantees an
     ordered window for it, or under a test that the window is ordered; otherwise the value depends on the order of the input rows"""
